@@ -14,7 +14,7 @@ use serde_json::{json, Value};
 
 const T0: u64 = 1_700_000_000_000;
 
-pub fn packet_kinds() -> Vec<(&'static str, Vec<u8>)> {
+fn packet_kinds_ext() -> Vec<(&'static str, Vec<u8>)> {
     let c2s = |flags: u8, seq: u32, payload: &[u8], ts: Option<u32>, syn_opts: bool| {
         let mut opts = vec![];
         if syn_opts {
@@ -78,7 +78,29 @@ pub fn packet_kinds() -> Vec<(&'static str, Vec<u8>)> {
         // the header is there but says nothing (empty, and blank only)
         ("http-request-with-empty-user-agent", c2s(ACK | PSH, 1001, b"GET / HTTP/1.1\r\nHost: u.example\r\nUser-Agent:\r\nAccept: */*\r\n\r\n", Some(100_100), false)),
         ("http-request-with-blank-user-agent", c2s(ACK | PSH, 1001, b"GET / HTTP/1.1\r\nHost: u.example\r\nUser-Agent:   \r\nAccept: */*\r\n\r\n", Some(100_100), false)),
+        // one segment on which two protocol analyzers report: a request head cut inside a header value; the second segment
+        // begins, byte for byte, with a complete ClientHello record (all its bytes are legal in a header value) and ends
+        // with the blank line
+        ("http-head-up-to-a-header-value", c2s(ACK | PSH, 1001, HEAD_PART1, Some(100_100), false)),
+        ("clienthello-bytes-that-complete-the-http-head", c2s(ACK | PSH, 1001 + HEAD_PART1.len() as u32, &[plain_hello(), b"\r\n\r\n".to_vec()].concat(), Some(100_150), false)),
     ]
+}
+
+const HEAD_PART1: &[u8] = b"GET / HTTP/1.1\r\nHost: u.example\r\nX-Blob: ";
+/// a ClientHello made only of bytes below 0x80 that are neither CR nor LF
+fn plain_hello() -> Vec<u8> {
+    let mut body = vec![0x03, 0x03];
+    body.extend([0x41; 32]);
+    body.push(0);
+    body.extend([0x00, 0x04, 0x13, 0x01, 0x00, 0x2f]);
+    body.extend([0x01, 0x00]);
+    let mut hs = vec![0x01, 0x00];
+    hs.extend((body.len() as u16).to_be_bytes());
+    hs.extend(body);
+    let mut rec = vec![0x16, 0x03, 0x01];
+    rec.extend((hs.len() as u16).to_be_bytes());
+    rec.extend(hs);
+    rec
 }
 
 #[derive(Clone, Copy, Debug)]
@@ -259,6 +281,17 @@ fn reframe(framing: usize, ip: &[u8]) -> Vec<u8> {
     }
 }
 /// the five result-bearing packet kinds in every framing, appended to the raw-IP kinds
+/// the kinds whose every trace is explored
+pub fn packet_kinds() -> Vec<(&'static str, Vec<u8>)> {
+    let mut v = packet_kinds_ext();
+    v.truncate(v.len() - 2);
+    v
+}
+/// the two halves of the request whose second segment is also a ClientHello (explored in their own small family)
+fn two_protocol_kinds() -> Vec<(&'static str, Vec<u8>)> {
+    let v = packet_kinds_ext();
+    v[v.len() - 2..].to_vec()
+}
 pub fn all_kinds() -> Vec<(String, Vec<u8>)> {
     let base = packet_kinds();
     let mut v: Vec<(String, Vec<u8>)> = base.iter().map(|(n, f)| (n.to_string(), f.clone())).collect();
@@ -272,6 +305,7 @@ pub fn all_kinds() -> Vec<(String, Vec<u8>)> {
         v.push((format!("syn-v6@{fname}"), reframe(fi, &v6)));
     }
     v.extend(uptime_kinds());
+    v.extend(two_protocol_kinds().into_iter().map(|(n, f)| (n.to_string(), f)));
     v
 }
 /// timestamped segments of both directions, IPv4 and IPv6, with TSvals whose uptime has different days, hours and minutes
@@ -344,7 +378,23 @@ pub fn run(thorough: bool) -> Outcome {
             }
         }
     }
-    if kinds.len() != ub + 8 {
+    // the segment on which the HTTP and the TLS analyzer both report: every trace of <= 4 packets over the two halves of that
+    // request, the SYN and an ordinary request
+    {
+        let tb = ub + 8;
+        let set = [tb, tb + 1, 0, 3];
+        for n in 1..=4usize {
+            for mut i in 0..4usize.pow(n as u32) {
+                let mut t = vec![];
+                for _ in 0..n {
+                    t.push(set[i % 4]);
+                    i /= 4;
+                }
+                traces.push(t);
+            }
+        }
+    }
+    if kinds.len() != ub + 8 + 2 || kinds[0].0 != "syn-ts" || kinds[3].0 != "http-request" {
         let mut r = Report::new();
         r.machinery_error("C20: packet kind table has an unexpected layout");
         return Outcome { report: r, rule: String::new(), exhaustive: false, bounds: json!({}) };
@@ -366,7 +416,7 @@ pub fn run(thorough: bool) -> Outcome {
     });
     Outcome {
         report: rep,
-        rule: "every trace of <= 4 packets (5 thorough) over 22 packet kinds (SYN/SYN+ACK/ACK with timestamps, HTTP request with, without and with an empty / blank User-Agent, HTTP response, ClientHello whole and in two parts, FIN+RST, no flags, IPv4 fragment, UDP, truncated frame, Ethernet-framed IPv6 SYN), every trace of <= 3 packets within each of 10 framings, every trace of <= 4 timestamped segments of both directions (IPv4 and IPv6, TSvals whose uptime has different days / hours / minutes) x 16 switch combinations x with/without database, unified analyzer vs stand-alone TCP / HTTP / stateless TLS processors in lock step under the injected clock; distinct = distinct unified outcomes".into(),
+        rule: "every trace of <= 4 packets (5 thorough) over 22 packet kinds (SYN/SYN+ACK/ACK with timestamps, HTTP request with, without and with an empty / blank User-Agent, HTTP response, ClientHello whole and in two parts, FIN+RST, no flags, IPv4 fragment, UDP, truncated frame, Ethernet-framed IPv6 SYN), every trace of <= 3 packets within each of 10 framings, every trace of <= 4 timestamped segments of both directions (IPv4 and IPv6, TSvals whose uptime has different days / hours / minutes) ; every trace of <= 4 packets over the two halves of a request whose second segment is byte for byte a complete ClientHello followed by the blank line (both protocol analyzers report on it), the SYN and an ordinary request; x 16 switch combinations x with/without database, unified analyzer vs stand-alone TCP / HTTP / stateless TLS processors in lock step under the injected clock; distinct = distinct unified outcomes".into(),
         exhaustive: true,
         bounds: json!({"traces": traces.len(), "configurations": cfgs.len(), "max_depth": depth}),
     }
